@@ -1,11 +1,14 @@
 package rl
 
 import (
+	"bufio"
 	"context"
 	"encoding/hex"
 	"encoding/json"
 	"errors"
 	"fmt"
+	"os"
+	"os/exec"
 	"strconv"
 	"strings"
 	"sync"
@@ -45,7 +48,8 @@ type Scenario struct {
 	Seed           uint64        `json:"s,omitempty"`
 	Conf           bool          `json:"c,omitempty"` // the trace is also checked for conformance with the Lean model
 	Tag            string        `json:"t,omitempty"`
-	WaitMs         int           `json:"w,omitempty"` // liveness bound per wait (default 20000)
+	WaitMs         int           `json:"w,omitempty"`   // liveness bound per wait (default 20000)
+	Isolate        bool          `json:"iso,omitempty"` // run in a child process: a change under test may panic in a router goroutine
 }
 
 func (sc Scenario) Encode() string {
@@ -162,6 +166,12 @@ func Run(sc Scenario) *Result {
 		ct = time.Duration(sc.CloseTimeoutMs) * time.Millisecond
 	}
 	rec := NewRec(sc.Seed, sc.Yield)
+	if path := os.Getenv("RL_STREAM"); path != "" {
+		if f, err := os.OpenFile(path, os.O_CREATE|os.O_WRONLY|os.O_TRUNC, 0o644); err == nil {
+			rec.stream = f
+			defer f.Close()
+		}
+	}
 	message.SetVerifHook(rec.Hook)
 	defer message.SetVerifHook(nil)
 	res := &Result{Sc: sc}
@@ -638,6 +648,71 @@ func Run(sc Scenario) *Result {
 			}
 			time.Sleep(time.Millisecond)
 		}
+	}
+	res.Wall = time.Since(t0)
+	return res
+}
+
+// RunMaybeIsolated runs scenarios marked Isolate in a child process (the same binary in -replay mode, events streamed
+// to a file): an unrecovered panic in a goroutine of the code under test then costs only that child. The trace is what
+// the child streamed; a child that died gets the extra event `crash`.
+func RunMaybeIsolated(sc Scenario) *Result {
+	if !sc.Isolate || os.Getenv("RL_CHILD") != "" {
+		return Run(sc)
+	}
+	t0 := time.Now()
+	tmp, err := os.CreateTemp("", "rl_stream_*")
+	if err != nil {
+		return Run(sc)
+	}
+	tmp.Close()
+	defer os.Remove(tmp.Name())
+	outTmp := tmp.Name() + ".out"
+	defer os.Remove(outTmp)
+	cmd := exec.Command(os.Args[0], "-tier", "quick", "-seed", "1", "-out", outTmp, "-replay", "trace "+sc.Encode())
+	cmd.Env = append(os.Environ(), "RL_CHILD=1", "RL_STREAM="+tmp.Name(), "GORACE=halt_on_error=0 exitcode=66 atexit_sleep_ms=0")
+	bound := 120 * time.Second
+	var stderr strings.Builder
+	cmd.Stderr = &stderr
+	done := make(chan error, 1)
+	if err := cmd.Start(); err != nil {
+		return Run(sc)
+	}
+	go func() { done <- cmd.Wait() }()
+	var werr error
+	select {
+	case werr = <-done:
+	case <-time.After(bound):
+		cmd.Process.Kill()
+		werr = errors.New("child timed out")
+	}
+	res := &Result{Sc: sc}
+	if f, err := os.Open(tmp.Name()); err == nil {
+		scn := bufio.NewScanner(f)
+		scn.Buffer(make([]byte, 1<<20), 1<<24)
+		for scn.Scan() {
+			parts := strings.Split(scn.Text(), ",")
+			if parts[0] != "" {
+				res.Events = append(res.Events, Event{Kind: parts[0], F: parts[1:]})
+			}
+		}
+		f.Close()
+	}
+	race := strings.Contains(stderr.String(), "WARNING: DATA RACE")
+	if werr != nil && !(race && len(res.Events) > 0 && res.Events[len(res.Events)-1].Kind == "fin") {
+		res.Events = append(res.Events, Event{Kind: "crash"})
+		msg := stderr.String()
+		if i := strings.Index(msg, "panic:"); i >= 0 {
+			msg = msg[i:]
+		}
+		if len(msg) > 300 {
+			msg = msg[:300]
+		}
+		res.Stuck = nil
+		res.LeftDump = "child process died: " + werr.Error() + " :: " + strings.ReplaceAll(msg, "\n", " | ")
+	}
+	if race {
+		fmt.Fprintln(os.Stderr, stderr.String()) // let the pipeline see the race report
 	}
 	res.Wall = time.Since(t0)
 	return res
